@@ -54,7 +54,7 @@ func Gen() *rapid.Generator[Case] {
 			c.RBuf = rapid.SampledFrom([]int{4096, 4096, 8192, 8192, 65536}).Draw(t, "rbuf")
 		} else {
 			c.WBuf = rapid.SampledFrom([]int{1, 7, 64, 4096, 4 << 20}).Draw(t, "wbuf")
-			c.RBuf = rapid.SampledFrom([]int{4, 7, 64, 4096, 4 << 20}).Draw(t, "rbuf")
+			c.RBuf = rapid.SampledFrom([]int{1, 2, 3, 4, 7, 64, 4096, 4 << 20}).Draw(t, "rbuf")
 			if c.DirectRead = rapid.IntRange(0, 9).Draw(t, "directread") == 0; c.DirectRead {
 				c.RBuf = rapid.SampledFrom([]int{4096, 4096, 8192, 65536}).Draw(t, "rbufd")
 			}
